@@ -565,6 +565,19 @@ def check_fmap(res, rng):
             if ok:
                 exp = [m[i] for i in fmodel(f2)]
                 decide("compose", fmodel(comp) == exp, nt, sp2=sp2, got=fmodel(comp), exp=exp)
+        # composition with a map whose span overhangs this one at the front, the back or both
+        # (Span.remap_with: "add a bit at either end if the span didn't lie entirely within its parent map"):
+        # positions outside [0, len) denote nothing
+        lo = -rng.randint(0, 3) if rng.random() < 0.7 else rng.randint(0, len(m) - 1)
+        hi = len(m) + rng.randint(0, 3) if rng.random() < 0.7 else rng.randint(max(lo, 0) + 1, len(m))
+        if hi > lo and (lo < 0 or hi > len(m)):
+            side = ("front" if lo < 0 else "") + ("back" if hi > len(m) else "")
+            f3 = FeatureMap(spans=[Span(lo, hi)], parent_length=len(m))
+            ok, comp = guarded("compose-overhang", lambda: fm[f3], span=(lo, hi))
+            if ok:
+                exp = [m[i] if 0 <= i < len(m) else None for i in range(lo, hi)]
+                decide("compose-overhang", fmodel(comp) == exp, (side,) + struct, span=(lo, hi), got=fmodel(comp), exp=exp)
+                res.count("compose-overhang:" + side)
     ok, r = guarded("without_gaps", lambda: fm.without_gaps())
     if ok:
         decide("without_gaps", fmodel(r) == present, nt)
